@@ -190,7 +190,7 @@ def check_case(case, ctx):
                             st = ent['stmt']
                             actuals = list(st[2]) + list((st[3] if len(st) > 3 and st[3] else {}).values())
                             ints = callee_intents(case, st)
-                            bound = sorted({str(ints[k]) if k < len(ints) else '?' for k, a_ in enumerate(actuals) if v in vars_in(a_)})
+                            bound = sorted({str(ints[k]) if k < len(ints) else '?' for k, a_ in enumerate(actuals) if v in dc.fold(vars_in(a_))})
                             if not bound:
                                 return 'via-call:host-association-of-internal-procedure'
                             if variant == 'unenriched':
@@ -217,7 +217,7 @@ def check_case(case, ctx):
                                 # a child statement reports the use, an earlier sibling that defines v only on some paths
                                 # (or, not reachable at variable granularity, only partly) removed it from the block's set
                                 sig = 'C26:uses-misses-read-variable:block:may-define-kills-use'
-                            elif v in mem_query_args(header_exprs(ent['stmt'])):
+                            elif v in dc.fold(mem_query_args(header_exprs(ent['stmt']))):
                                 sig = 'C26:uses-misses-read-variable:variable-also-argument-of-size-lbound-ubound-query'
                             else:
                                 sig = f'C26:uses-misses-read-variable:{cls}:not-reported'
